@@ -297,6 +297,30 @@ class Repo:
         self._mro_cache[key] = names
         return names
 
+    def codegen_shape(self):
+        """None when the text of the generated module is built from the %-templates the rules read
+        (two drivers, a pack and an unpack struct block, a pack and an unpack per-field block, each
+        per-field block in a generator of its own); otherwise what is missing"""
+        key = ('cgshape',)
+        if key in self._mro_cache:
+            return self._mro_cache[key]
+        try:
+            ts = [t for t in self.templates() if t.tree is not None]
+        except Undecided as e:
+            ts = []
+        drivers = {d for t in ts for d in t.defines() if d in ('pack_impl', 'unpack_impl')}
+        blocks = [t for t in ts if not t.defines()]
+        missing = []
+        if drivers != {'pack_impl', 'unpack_impl'}:
+            missing.append('driver templates (found %s)' % sorted(drivers))
+        # today: a pack and an unpack block for struct runs (one generator) and a pack and an unpack
+        # block for field-by-field runs (a generator each)
+        if len(blocks) < 4 or len({t.func.id for t in blocks}) < 3:
+            missing.append('the four block templates in their three generators (found %d templates in %d functions)' % (len(blocks), len({t.func.id for t in blocks})))
+        res = '; '.join(missing) or None
+        self._mro_cache[key] = res
+        return res
+
     def parked_method_attrs(self, ci):
         """attributes (other than pack / unpack) that some method assigns a method of the class to"""
         key = ('parked', ci.qual)
